@@ -235,3 +235,65 @@ Fixpoint run (fx : bool) (genesis : group) (s : state) (ops : list op) : state *
   | o :: r => let '(s', c) := step fx genesis s o in
               let '(s'', cs) := run fx genesis s' r in (s'', c :: cs)
   end.
+
+(* ---- AddGroup step by step (interleavings of concurrent callers) ----
+   One AddGroup call is three steps, as the locks of the code make them:
+     AHas   : chain.groups.Has(group.Id)            (no lock)
+     ACheck : consensusHelper.CheckGroup(group)      (no lock, no access to the chain; accepts)
+     ATail  : chain.lock.Lock(); parent present? PreGroup = lastGroup.Id? save    (one critical section)
+   lk = true is that code.  lk = false is the check-then-act variant in which the two link checks run
+   (under the read lock) before CheckGroup and the write lock covers save alone.
+   remove(last) and removeFromCommonAncestor hold the write lock throughout: one step each.
+   A thread is a sequence of calls; stop = true gives up at the first refusal (triggerOnChain:
+   removeFromCommonAncestor, then AddGroup of the fork groups until one fails). *)
+Inductive apc := AHas | ACheck | ATail.
+Record thread := mkT { cur : option (group * apc); prog : list op; stop : bool; rets : list N }.
+
+Definition links (s : state) (g : group) : N :=
+  if negb (has s (gparent g)) then 2 else if negb (gid (last s) =? gpre g) then 3 else 0.
+
+Definition finish (t : thread) (c : N) : thread :=
+  {| cur := None; prog := if stop t && negb (c =? 0) then [] else prog t; stop := stop t;
+     rets := c :: rets t |}.
+Definition at_pc (t : thread) (g : group) (pc : apc) : thread :=
+  {| cur := Some (g, pc); prog := prog t; stop := stop t; rets := rets t |}.
+
+Definition tstep (lk : bool) (g0 : group) (s : state) (t : thread) : option (state * thread) :=
+  match cur t with
+  | Some (g, AHas) =>
+      if has s (gid g) then Some (s, finish t 1)
+      else if lk then Some (s, at_pc t g ACheck)
+      else if links s g =? 0 then Some (s, at_pc t g ACheck) else Some (s, finish t (links s g))
+  | Some (g, ACheck) => Some (s, at_pc t g ATail)
+  | Some (g, ATail) =>
+      if lk then (if links s g =? 0 then Some (save s g, finish t 0) else Some (s, finish t (links s g)))
+      else Some (save s g, finish t 0)
+  | None =>
+      match prog t with
+      | [] => None                                       (* the thread has returned *)
+      | Add g :: r => Some (s, {| cur := Some (g, AHas); prog := r; stop := stop t; rets := rets t |})
+      | o :: r => let '(s', c) := step true g0 s o in
+                  Some (s', finish {| cur := None; prog := r; stop := stop t; rets := rets t |} c)
+      end
+  end.
+
+Fixpoint upd_nth {A} (n : nat) (x : A) (l : list A) : list A :=
+  match l, n with
+  | [], _ => []
+  | _ :: r, O => x :: r
+  | a :: r, S k => a :: upd_nth k x r
+  end.
+
+(* a schedule names the thread that moves next; naming a thread that has returned is a no-op *)
+Fixpoint crun (lk : bool) (g0 : group) (s : state) (ts : list thread) (sched : list nat)
+  : state * list thread :=
+  match sched with
+  | [] => (s, ts)
+  | i :: r => match nth_error ts i with
+              | Some t => match tstep lk g0 s t with
+                          | Some (s', t') => crun lk g0 s' (upd_nth i t' ts) r
+                          | None => crun lk g0 s ts r
+                          end
+              | None => crun lk g0 s ts r
+              end
+  end.
